@@ -22,7 +22,9 @@ Import ListNotations.
 
 (* ---- locations ---- *)
 Definition L_sm4_subkeys := 0.   (* Sm4Cipher.subkeys of ONE shared cipher object; written by NewCipher before sharing *)
-Definition L_sm4_IV := 1.        (* package variable sm4.IV (sm4/sm4.go:30), written by SetIV *)
+Definition L_sm4_IV := 1.        (* package variable sm4.IV (the slice header; sm4/sm4.go:30), written by SetIV under ivMu, fetched by the
+                                    helpers through currentIV() under its read lock.  The 16 bytes behind it are never written by
+                                    the package (SetIV stores the caller's slice: the caller must not change it afterwards) *)
 Definition L_sm4_tables := 2.    (* sbox, sbox0..3, ck, fk: never written *)
 Definition L_curve := 3.         (* package variable sm2.sm2P256 (CurveParams, a, b, gx, gy) *)
 Definition L_sm2_tables := 4.    (* sm2P256Precomputed, sm2P256Carry, sm2P256Factor, one, two: never written *)
@@ -56,7 +58,8 @@ Definition M_out := 3.     (* Conn.out.Mutex *)
 Definition A_ac := 4.      (* virtual: atomic operations on activeCall *)
 Definition A_st := 5.      (* virtual: atomic operations on handshakeStatus *)
 Definition M_hs := 6.      (* Conn.handshakeMutex *)
-Definition n_mut := 7.
+Definition M_iv := 7.      (* sm4.ivMu (sync.RWMutex around the package variable sm4.IV, since /repo 0fa6cb9) *)
+Definition n_mut := 8.
 
 (* ---- Once objects and what their initialisers write ---- *)
 Definition O_curve := 0.
@@ -82,12 +85,15 @@ Definition gm_obody (o : nat) : list (nat * nat) :=
 
 (* ---- operations ---- *)
 Inductive op :=
-| sm2_genkey | sm2_sign | sm2_verify | sm2_encrypt | sm2_decrypt | curve_first_use
+| sm2_genkey | sm2_sign | sm2_verify | sm2_encrypt | sm2_decrypt | sm2_key_exchange | curve_first_use
 | sm3_new_hash
-| sm4_new_cipher | sm4_encrypt | sm4_decrypt | sm4_helper_ecb | sm4_helper_iv
-| sm4_set_iv                       (* caller-synchronised global: NOT in the claim *)
-| x509_parse_cert | x509_parse_pkcs7 | x509_parse_key | x509_pkcs7_encrypt
-| x509_set_cea                     (* caller-synchronised global: NOT in the claim *)
+| sm4_new_cipher | sm4_encrypt | sm4_decrypt | sm4_helper_ecb | sm4_helper_iv | sm4_gcm_helper
+| sm4_set_iv                       (* SetIV at any time, also while other goroutines use the helpers (since /repo 0fa6cb9) *)
+| x509_parse_cert | x509_parse_pkcs7 | x509_parse_key | x509_pkcs7_encrypt | pkcs12_codec
+| x509_set_cea                     (* caller-synchronised, NOT in the claim: the application's own assignment to the exported variable
+                                      x509.ContentEncryptionAlgorithm (x509/pkcs7.go:840; there is no setter); the same goes for a
+                                      direct assignment "sm4.IV = ..." that bypasses SetIV.  Scenario pkcs7_cea changes the
+                                      selector between the concurrent phases only *)
 | certpool_add                     (* building the pool: caller-synchronised, NOT in the claim *)
 | config_setup                     (* BuildNameToCertificate, GMSupport.EnableMixMode: configuration before use, NOT in the claim *)
 | x509_cert_fill                   (* FromX509Certificate, CreateCertificate (template.AuthorityKeyId): caller's object, NOT in the claim *)
@@ -142,6 +148,8 @@ Definition code (o : op) : list nitem :=
   match o with
   (* package-level functions on separate data: scenario sm2_ops *)
   | sm2_genkey | sm2_sign | sm2_verify | sm2_encrypt | sm2_decrypt => curve_use
+  (* KeyExchangeA / KeyExchangeB with shared long-term keys and identifiers: scenario sm2_keyexchange *)
+  | sm2_key_exchange => curve_use
   (* sm2.P256Sm2(): scenarios curve_first, curve_first_mixed *)
   | curve_first_use => [NOnce O_curve; rd L_curve]
   (* sm3.New + Write/Sum/Reset on the caller's own object, Sm3Sum: no shared location; scenario sm3_hash *)
@@ -150,11 +158,14 @@ Definition code (o : op) : list nitem :=
   | sm4_new_cipher => [rd L_sm4_tables]
   | sm4_encrypt | sm4_decrypt => [rd L_sm4_subkeys; rd L_sm4_tables]                 (* scratch is local since 6638fbe *)
   | sm4_helper_ecb => [rd L_sm4_tables]
-  | sm4_helper_iv => [rd L_sm4_IV; rd L_sm4_tables]                                  (* Sm4Cbc, Sm4CFB, Sm4OFB *)
-  | sm4_set_iv => [wr L_sm4_IV]
+  | sm4_helper_iv => locked Shared M_iv [rd L_sm4_IV] ++ [rd L_sm4_tables]                                (* Sm4Cbc, Sm4CFB, Sm4OFB: scenarios sm4_iv_readers, sm4_iv_set *)
+  | sm4_gcm_helper => [rd L_sm4_tables]                                              (* Sm4GCM, GCMEncrypt, GCMDecrypt on one key: scenario sm4_gcm *)
+  | sm4_set_iv => locked Excl M_iv [wr L_sm4_IV]                                      (* scenario sm4_iv_set *)
   (* x509: scenario x509_parse (ber.go has no package counter since c7c93cc) *)
   | x509_parse_cert | x509_parse_pkcs7 | x509_parse_key => curve_use ++ [rd L_x509_tables]
-  | x509_pkcs7_encrypt => curve_use ++ [rd L_x509_cea; rd L_x509_tables]
+  | x509_pkcs7_encrypt => curve_use ++ [rd L_x509_cea; rd L_x509_tables]             (* scenarios x509_parse, pkcs7_cea *)
+  (* pkcs12.Encode / Decode / DecodeAll / ToPEM with a shared key, certificate and container: scenario pkcs12_codec *)
+  | pkcs12_codec => curve_use ++ [rd L_cert; rd L_x509_tables]
   | x509_set_cea => [wr L_x509_cea]
   | certpool_add => curve_use ++ [rd L_pool; wr L_pool]
   | config_setup => curve_use ++ [wr L_cfg_fields]
@@ -197,16 +208,16 @@ Definition code (o : op) : list nitem :=
 
 (* the operations the property claims to be safe against each other (and against themselves) *)
 Definition claimed_ops : list op :=
-  [sm2_genkey; sm2_sign; sm2_verify; sm2_encrypt; sm2_decrypt; curve_first_use; sm3_new_hash;
-   sm4_new_cipher; sm4_encrypt; sm4_decrypt; sm4_helper_ecb; sm4_helper_iv;
-   x509_parse_cert; x509_parse_pkcs7; x509_parse_key; x509_pkcs7_encrypt;
+  [sm2_genkey; sm2_sign; sm2_verify; sm2_encrypt; sm2_decrypt; sm2_key_exchange; curve_first_use; sm3_new_hash;
+   sm4_new_cipher; sm4_encrypt; sm4_decrypt; sm4_helper_ecb; sm4_helper_iv; sm4_gcm_helper; sm4_set_iv;
+   x509_parse_cert; x509_parse_pkcs7; x509_parse_key; x509_pkcs7_encrypt; pkcs12_codec;
    cert_verify; cert_verify_sysroots;
    config_first_use; config_ticket_keys; config_clone; config_read_fields; config_set_ticket_keys;
    default_cipher_suites; lru_put; lru_get;
    conn_handshake; conn_read; conn_write; conn_close; conn_state].
 
 (* every operation of the table except the caller-synchronised writers *)
-Definition unclaimed_ops : list op := [sm4_set_iv; x509_set_cea; certpool_add; config_setup; x509_cert_fill; x509_register_hash].
+Definition unclaimed_ops : list op := [x509_set_cea; certpool_add; config_setup; x509_cert_fill; x509_register_hash].
 
 (* net effect of a piece of code on the list of held locks *)
 Fixpoint final_hl (hl : list lk) (c : list nitem) : list lk :=
@@ -231,7 +242,7 @@ Definition gm_rank (m : nat) : nat :=
   | 6 => 0          (* M_hs *)
   | 2 => 1          (* M_in *)
   | 3 => 2          (* M_out *)
-  | 0 | 1 => 4      (* M_cfg, M_lru *)
+  | 0 | 1 | 7 => 4  (* M_cfg, M_lru, M_iv: never held together *)
   | _ => 6          (* A_ac, A_st *)
   end.
 Definition gm_rank_bound := 7.
